@@ -49,6 +49,10 @@ class Src:
         x = self._next("i")
         if lo is None and hi is None and self.narrow is True:
             lo, hi = -1, 1
+        if lo is not None and hi is not None:
+            # a bounded leaf is the unbounded parameter folded into the range: no path is spent on
+            # (and then discarded for) the out-of-range alternatives of an assumption
+            return lo + x % (hi - lo + 1)
         if lo is not None:
             assume(lo <= x)
         if hi is not None:
